@@ -373,9 +373,11 @@ def graph_walkers(repo, res, rule="GW"):
                 vis = [prm["name"] for prm in fn.params if prm.get("name") and "mut" in (prm.get("ty") or "") and re.search(r"RoaringBitmap|Set", prm.get("ty") or "")]
                 maps = [prm["name"] for prm in fn.params if prm.get("name") and re.search(r"Map", prm.get("ty") or "")]
                 tests_vis = lambda t: any(re.search(r"\b%s\b" % re.escape(v), t) for v in vis)
-                cond_ok = all(tests_vis(cond_text(repo, fn, g[0]["cond"])) for g in conds)
+                # a condition is read together with what its locals were computed from (`let first = visited.insert(x); if !first`)
+                ctext = lambda cnd: cond_text(repo, fn, cnd) + " " + A.show(A.resolve(cnd, envs.get(id(cnd)) or envs.get(id(c))))
+                cond_ok = all(tests_vis(ctext(g[0]["cond"])) for g in conds)
                 pg = [x for x in A.preceding_guards(c, pm) if A.before(lp, x[2])]
-                pg_ok = all(tests_vis(cond_text(repo, fn, x[1])) if x[0] == "if" else any((m + ".get") in cond_text(repo, fn, x[1]["init"]).replace(" ", "") for m in maps) for x in pg)
+                pg_ok = all(tests_vis(ctext(x[1])) if x[0] == "if" else any((m + ".get") in cond_text(repo, fn, x[1]["init"]).replace(" ", "") for m in maps) for x in pg)
                 # the successor handed on is the loop's own target / follow set
                 a0 = A.resolve(c["args"][0], envs.get(id(c)))
                 succ_ok = any(r[0] in ("param",) for r in A.roots(a0)) and ("elem" in str(a0))
